@@ -92,7 +92,7 @@ def check(chk):
     chk.analysed(f)
     cfg = f.cfg()
     sf = [(n, c) for n, c in cfg.calls_named("set_fade")]
-    chk.require(sf, "C09: set_fade call vanished from _schedule_update")
+    chk.need(sf, "DOM-18", "_schedule_update commands the hardware through set_fade", f)
     outer = [h for h in cfg.nodes if h.kind == "loop" and "hw_drivers" in src(h.ast.iter)]
     inner = [h for h in cfg.nodes if h.kind == "loop" and src(h.ast.iter) == "drivers"]
     chk.ob("DOM-18", "all colour channels and all of their drivers are visited", bool(outer) and bool(inner) and src(outer[0].ast.iter) == "self.hw_drivers.items()",
